@@ -1,23 +1,7 @@
 use xot::Xot;
 fn main() {
     let mut xot = Xot::new();
-    let u = xot.add_namespace("U");
-    let v = xot.add_namespace("V");
-    let q = xot.add_prefix("q");
-    let e = xot.empty_prefix();
-    let rn = xot.add_name_ns("r", u);
-    let cn = xot.add_name_ns("c", u);
-    let an = xot.add_name("a");
-    let r = xot.new_element(rn);
-    let a = xot.new_element(an);
-    let c = xot.new_element(cn);
-    xot.append(r, a).unwrap();
-    xot.append(a, c).unwrap();
-    xot.namespaces_mut(r).insert(e, u);
-    xot.namespaces_mut(r).insert(q, u);
-    xot.namespaces_mut(a).insert(q, v);
-    println!("root: {:?}", xot.to_string(r));
-    println!("a in place: {:?}", xot.to_string(a));
-    let cl = xot.clone_with_prefixes(a);
-    println!("clone: {:?}", xot.to_string(cl));
+    for t in ["<a xmlns:p=\"\" p:x=\"1\"/>", "<a xmlns:p=\"\" p:x=\"1\" x=\"2\"/>", "<a xmlns:p=\"\" x=\"1\" p:x=\"2\"/>", "<a xmlns:p=\"\"><p:b/></a>"] {
+        match xot.parse(t) { Ok(d) => println!("{} => OK {:?}", t, xot.to_string(d)), Err(e) => println!("{} => ERR {:?}", t, e) }
+    }
 }
